@@ -323,6 +323,35 @@ class Rewriter:
         self.text = res
         self.hit("R5", n)
 
+    # R5 (arm form) --------------------------------------------------------
+    def replace_arm_body(self, pattern, new_body):
+        """Counted substitution of the BODY of the match arm whose pattern text is `pattern` (exactly one
+        such arm): the arm becomes `pattern => new_body,`. Used to stub out arms whose bodies are
+        iterator chains over containers (outside Verus) while keeping the order and patterns of all arms."""
+        m = mask(self.text)
+        hits = [x for x in re.finditer(re.escape(pattern) + r"\s*=>\s*", self.text) if m[x.start()] == self.text[x.start()]]
+        if len(hits) != 1:
+            raise ExtractError("%s: arm %r found %d times" % (self.label, pattern, len(hits)))
+        j = hits[0].end()
+        if m[j] == "{":
+            e = match_close(m, j) + 1
+        else:
+            depth, e = 0, j
+            while True:
+                ch = m[e]
+                if ch in "([{":
+                    depth += 1
+                elif ch in ")]}":
+                    if depth == 0:
+                        break
+                    depth -= 1
+                elif ch == "," and depth == 0:
+                    break
+                e += 1
+        comma = "" if m[e:].lstrip().startswith(",") else ","
+        self.text = self.text[:j] + new_body + comma + self.text[e:]
+        self.hit("R5-arm")
+
     # R8 ------------------------------------------------------------------
     def desugar_let_chains(self):
         """`if let PAT = E && COND { A }` (no else) -> `if let PAT = E { if COND { A } }`."""
